@@ -46,4 +46,22 @@ theorem supi_range (cfg : Cfg) (hd : DecimalImsi cfg.imsi) (j : Nat) (hfit : dec
   have : (10 : Nat) ^ 18 + 14 < 2 ^ 63 := by decide
   constructor <;> omega
 
+/-- the RAN-UE-NGAP-ID `CreateUE` assigns is in the range of the NGAP type -/
+theorem ran_range (cfg : Cfg) (hd : DecimalImsi cfg.imsi) (j : Nat) (hj : j < 2 ^ 62) :
+    0 ≤ (createUE cfg j).ctx.ranUeNgapId ∧ (createUE cfg j).ctx.ranUeNgapId < 2 ^ 32 := by
+  have hran : (createUE cfg j).ctx.ranUeNgapId = (((decVal cfg.imsi + j) % 10000 : Nat) : Int) :=
+    createUE_ranId hd j hj cfg.k cfg.opc cfg.op
+  rw [hran]
+  constructor <;> omega
+
+/-- the PDU session identity the three procedures compute from the SUPI number, as a natural number `psi` in 1..15:
+    `uint8(pduId)` is `psi`, the `int64` argument of the NGAP wrappers is its cast -/
+theorem psi_facts (n : Int) (h0 : 0 ≤ n) (h63 : n + 14 < 2 ^ 63) :
+    ∃ psi : Nat, psi8 (pduIdOf n) = UInt8.ofNat psi ∧ (psi : Int) = pduIdOf n ∧ 1 ≤ psi ∧ psi ≤ 15 := by
+  have hw : wrap64 (n + 14) = n + 14 := by unfold wrap64; omega
+  have e : pduIdOf n = (n + 14) % 15 + 1 := by
+    unfold pduIdOf; rw [hw, Int.tmod_eq_emod_of_nonneg (by omega)]
+  refine ⟨(pduIdOf n).toNat, ?_, by omega, by omega, by omega⟩
+  unfold psi8; rw [Int.emod_eq_of_lt (by omega) (by omega)]
+
 end Stgutg.Proofs.EmulatorLifeArgs
